@@ -250,6 +250,7 @@ func ConcDo(f0 func() (%[1]s, error), f1 func() (int, error), f2 func() (%[1]s, 
 		b.patterns = []string{"./a", "./p"}
 	}
 	p.SplitCalls = rapid.IntRange(1, 3).Draw(t, "callfiles")
+	p.RenameSplit = p.SplitCalls > 1 && rapid.Bool().Draw(t, "renamesplit")
 	b.files = p.Files()
 	b.nt = b.features["nested"] || b.features["ext-private"] || b.features["map"] || b.features["plugin:unique"] ||
 		(b.features["ext"] && len(env.Ext) == 2 && env.Ext[0].Name == env.Ext[1].Name)
